@@ -1,4 +1,5 @@
 import S3V.Model.Plan
+import S3V.Model.Float53
 import S3V.Driver.Util
 namespace S3V.Driver
 open S3V.Plan
@@ -12,6 +13,15 @@ def planStep (toks : List String) : String :=
   | ["ceil", a, b] =>
     match a.toNat?, b.toNat? with
     | some a, some b => if b = 0 then "zero-div" else toString (ceilDiv a b)
+    | _, _ => "bad-op"
+  | ["fdiv", a, b] =>
+    match a.toNat?, b.toNat? with
+    | some a, some b =>
+      if b = 0 then "zero-div" else s!"{(Float53.fdiv a b).num}/{(Float53.fdiv a b).den}"
+    | _, _ => "bad-op"
+  | ["fceil", a, b] =>
+    match a.toNat?, b.toNat? with
+    | some a, some b => if b = 0 then "zero-div" else toString (Float53.fceil a b)
     | _, _ => "bad-op"
   | ["multipart", s, t] =>
     match s.toNat?, t.toNat? with
